@@ -169,6 +169,8 @@ pub struct HsCfg {
     /// additionally supply, through the builder, a psk in a slot no token of the instance uses (snow accepts it;
     /// it must not influence a single byte)
     pub extra_psk: bool,
+    /// `NoiseParams.name` replaced by this free-form string on both sides (the choices stay those of `name()`)
+    pub alias: Option<String>,
     pub seed: u64,
 }
 
@@ -327,7 +329,7 @@ pub fn run_hs(cfg: &HsCfg, sc: &mut Sc) -> HsTrace {
         }
         v
     };
-    let spec_i = BuildSpec {
+    let spec_i = BuildSpec { alias: cfg.alias.clone(),
         name: name.clone(),
         initiator: true,
         resolver: cfg.res_i.clone(),
@@ -338,7 +340,7 @@ pub fn run_hs(cfg: &HsCfg, sc: &mut Sc) -> HsTrace {
         prologue: cfg.prologue.clone(),
         rng: keys.rng_i.clone(),
     };
-    let spec_r = BuildSpec {
+    let spec_r = BuildSpec { alias: cfg.alias.clone(),
         name: name.clone(),
         initiator: false,
         resolver: cfg.res_r.clone(),
